@@ -24,6 +24,9 @@ type DiskOpts struct {
 	ErrBefore int // permille: operation fails without effect
 	ErrAfter  int // permille: operation takes effect but reports failure (Save/Delete)
 	Shuffle   bool
+	// CorruptLoad: permille of Load results altered in one byte or
+	// truncated on their way to the client (the medium keeps the value)
+	CorruptLoad int
 }
 
 // DiskOp is one completed (or interrupted) storage operation.
@@ -152,8 +155,21 @@ func (s *Sim) diskAction(p *park) Action {
 				rec.Effect = true
 			case 'L':
 				if v, ok := d.M[op.key]; ok {
-					op.val = append([]byte(nil), v...)
+					op.val = append([]byte{}, v...)
 					rec.Val = op.val
+					if len(v) > 0 && w.FaultOK() && w.Tape.Flip("ldmg", d.Opts.CorruptLoad) {
+						w.Fault("load_damaged")
+						if fl, ok := w.X.(*Flow); ok {
+							fl.LoadDamage++
+						}
+						if w.Tape.Flip("ldmg-trunc", 250) {
+							op.val = op.val[:w.Tape.Draw("ldmg-len", len(op.val))]
+						} else {
+							pos := w.Tape.Draw("ldmg-pos", len(op.val))
+							op.val[pos] += byte(1 + w.Tape.Draw("ldmg-val", 255))
+						}
+						w.Ev("disk", int(op.key), "Load %#x returns damaged content", op.key)
+					}
 				}
 			case 'I':
 				keys := d.SortedKeys()
